@@ -40,55 +40,98 @@ def sh(cmd, cwd=None, timeout=1800, env=None):
 
 
 # ---------------------------------------------------------------- build ----
+GEN = os.path.join(OCAML, 'gen')
+LOCK = os.path.join(COQ, '.build.lock')
+
+
 def ensure_makefile():
-    mk = os.path.join(COQ, 'Makefile')
+    """_CoqProject lists every .v file under coq/ (sorted; WIP files that do not
+    compile are harmless because checks build named targets only)."""
+    vs = []
+    for root, dirs, files in os.walk(COQ):
+        dirs.sort()
+        for f in sorted(files):
+            if f.endswith('.v') and not f.startswith('.'):
+                vs.append(os.path.relpath(os.path.join(root, f), COQ))
+    body = '-Q . EoNV\n-arg -w -arg -notation-overridden,-deprecated-hint-without-locality,-deprecated-instance-without-locality,-ambiguous-paths\n' + '\n'.join(sorted(vs)) + '\n'
     cp = os.path.join(COQ, '_CoqProject')
-    if not os.path.exists(mk) or os.path.getmtime(mk) < os.path.getmtime(cp):
+    old = open(cp).read() if os.path.exists(cp) else ''
+    mk = os.path.join(COQ, 'Makefile')
+    if old != body or not os.path.exists(mk):
+        open(cp, 'w').write(body)
         rc, out, _ = sh('coq_makefile -f _CoqProject -o Makefile', cwd=COQ, timeout=120)
         if rc != 0:
             raise RuntimeError('coq_makefile failed: ' + out)
 
 
-def coq_make(targets=None, timeout=3000):
-    """Full .vo build (never -vos) of the given targets (default: everything)."""
-    ensure_makefile()
-    cmd = 'timeout %d make -j%d %s' % (timeout, NPROC, ' '.join(targets or []))
-    rc, out, dt = sh(cmd, cwd=COQ, timeout=timeout + 30)
+def coq_make(targets=None, timeout=3000, keep_going=False):
+    """Full .vo build (never -vos) of the given targets (default: everything),
+    serialised by a file lock so that concurrent checks do not race on .vo files."""
+    os.makedirs(GEN, exist_ok=True)
+    import fcntl
+    with open(LOCK, 'w') as lk:
+        fcntl.flock(lk, fcntl.LOCK_EX)
+        ensure_makefile()
+        cmd = 'timeout %d make %s -j%d %s' % (timeout, '-k' if keep_going else '', NPROC, ' '.join(targets or []))
+        rc, out, dt = sh(cmd, cwd=COQ, timeout=timeout + 30)
     return rc == 0, out, dt
 
 
-def build_driver(force=False):
-    """Re-extract (Extract/Extract.vo is a make target whose side effect is
-    ocaml/model.ml) and compile the driver when anything is newer."""
-    ok, out, dt = coq_make(['Extract/Extract.vo'])
+def xfile(comp):
+    return 'Extract/X%s.v' % (comp[0].upper() + comp[1:])
+
+
+def driver_path(comp):
+    return os.path.join(GEN, '%s_driver' % comp)
+
+
+def build_driver(comp='base', force=False):
+    """Re-extract component `comp` (coq/Extract/X<Comp>.vo is a make target whose
+    side effect is ocaml/gen/<comp>_model.ml), paste the glue named in the header
+    of ocaml/<comp>_driver.ml and compile when anything is newer."""
+    xv = xfile(comp)
+    ok, out, dt = coq_make([xv + 'o'])
     if not ok:
         return False, out
-    ml = os.path.join(OCAML, 'model.ml')
+    ml = os.path.join(GEN, '%s_model.ml' % comp)
     if not os.path.exists(ml):
-        # extraction output is missing although the .vo is fresh: force it
-        sh('rm -f Extract/Extract.vo Extract/Extract.glob', cwd=COQ)
-        ok, out, dt = coq_make(['Extract/Extract.vo'])
-        if not ok:
-            return False, out
-    srcs = [ml, os.path.join(OCAML, 'driver.ml')]
-    if force or not os.path.exists(DRIVER) or any(os.path.getmtime(s) > os.path.getmtime(DRIVER) for s in srcs):
-        rc, o, _ = sh('timeout 600 ocamlfind ocamlopt -O2 -package zarith -linkpkg -w -a model.mli model.ml driver.ml -o driver 2>&1'
-                      ' || timeout 600 ocamlfind ocamlopt -package zarith -linkpkg -w -a model.mli model.ml driver.ml -o driver',
-                      cwd=OCAML, timeout=1300)
+        sh('rm -f %so %s' % (xv, xv.replace('.v', '.glob')), cwd=COQ)
+        ok, out, dt = coq_make([xv + 'o'])
+        if not ok or not os.path.exists(ml):
+            return False, out + '\nextraction produced no ' + ml
+    drv = os.path.join(OCAML, '%s_driver.ml' % comp)
+    head = open(drv).readline()
+    m = re.search(r'GLUE:\s*([a-z ]+)', head)
+    parts = (m.group(1).split() if m else ['base', 'err', 'main'])
+    gfiles = [os.path.join(OCAML, 'glue.ml' if g == 'base' else 'glue_%s.ml' % g) for g in parts]
+    exe = driver_path(comp)
+    srcs = [ml, drv] + gfiles
+    if force or not os.path.exists(exe) or any(os.path.getmtime(x) > os.path.getmtime(exe) for x in srcs):
+        main_g = [g for g in gfiles if g.endswith('glue_main.ml')]
+        pre = [g for g in gfiles if not g.endswith('glue_main.ml')]
+        txt = 'module ZZ = Z\nmodule QQ = Q\nopen %s_model\n' % (comp[0].upper() + comp[1:])
+        for g in pre + main_g:
+            txt += open(g).read() + '\n'
+        txt += open(drv).read()
+        mainml = os.path.join(GEN, '%s_main.ml' % comp)
+        open(mainml, 'w').write(txt)
+        c = 'timeout 900 ocamlfind ocamlopt -package zarith -linkpkg -w -a %s_model.mli %s_model.ml %s_main.ml -o %s_driver' % (comp, comp, comp, comp)
+        rc, o, _ = sh(c, cwd=GEN, timeout=1000)
         if rc != 0:
             return False, o
     return True, ''
 
 
-def run_model(lines, timeout=1800, shards=None):
+def run_model(lines, comp='base', timeout=1800, shards=None):
     """Feed case lines to the extracted model; returns one output line per case."""
     if not lines:
         return []
-    shards = shards or min(NPROC, max(1, len(lines) // 200))
+    exe = driver_path(comp)
+    shards = shards or min(NPROC, max(1, len(lines) // 100))
     chunks = [lines[i::shards] for i in range(shards)]
     procs = []
     for ch in chunks:
-        p = subprocess.Popen(['bash', '-c', 'ulimit -s unlimited 2>/dev/null; exec %s' % DRIVER],
+        p = subprocess.Popen(['bash', '-c', 'ulimit -s unlimited 2>/dev/null; exec %s' % exe],
                              stdin=subprocess.PIPE, stdout=subprocess.PIPE, stderr=subprocess.PIPE, text=True)
         procs.append((p, ch))
     import threading
@@ -108,6 +151,36 @@ def run_model(lines, timeout=1800, shards=None):
         for j, idx in enumerate(range(i, len(lines), shards)):
             outs[idx] = r[j] if j < len(r) else 'DRIVERFAIL no output'
     return outs
+
+
+def components():
+    return sorted(f[:-len('_driver.ml')] for f in os.listdir(OCAML) if f.endswith('_driver.ml'))
+
+
+def claimed():
+    try:
+        return [c['property_id'] for c in json.load(open(os.path.join(VERIF, 'MANIFEST.json')))['checks']]
+    except Exception:
+        return []
+
+
+def setup():
+    """MANIFEST.setup_cmd: build the whole Coq development (keep going over
+    work-in-progress files that no claimed check uses), every extracted driver,
+    and insist that the theorem file of every claimed property was built."""
+    ok, out, dt = coq_make(keep_going=True, timeout=5400)
+    print(out[-3000:])
+    print('coq build: %s in %.0fs' % ('ok' if ok else 'some files failed', dt))
+    bad = []
+    for pid in claimed():
+        if not os.path.exists(os.path.join(COQ, 'Props', pid + '.vo')):
+            bad.append('Props/%s.vo missing' % pid)
+    for comp in components():
+        ok2, o = build_driver(comp, force=True)
+        if not ok2:
+            print(o[-2000:]); bad.append('driver %s failed' % comp)
+    print('SETUP %s' % ('ok' if not bad else 'FAILED: ' + '; '.join(bad)))
+    return 0 if not bad else 1
 
 
 # ------------------------------------------------------------- theorems ----
@@ -268,6 +341,15 @@ def proof_coverage(run, props, n_eval, n_distinct, rule, samples, extra=None):
     })
     if extra:
         run.coverage.update(extra)
+
+
+def load_corpus(pid):
+    """minimised past failures, run first (committed under /verif/corpus)"""
+    p = os.path.join(VERIF, 'corpus', pid + '.json')
+    try:
+        return json.load(open(p))
+    except FileNotFoundError:
+        return []
 
 
 def frac(x):
